@@ -1203,9 +1203,13 @@ func (s *APIServer) GetNetworkBinding(ctx context.Context, in *pb.GetNetworkBind
 		return nil, status.New(ErrAPIQueryDataFailed, err.Error()).Err()
 	}
 
+	totalBinding, err := formatAmountWithUnit(networkTotal)
+	if err != nil {
+		return nil, err
+	}
 	resp := &pb.GetNetworkBindingResponse{
 		Height:                    height,
-		TotalBinding:              networkTotal.String(),
+		TotalBinding:              totalBinding,
 		BindingPriceMassBitlength: make(map[uint32]string),
 		BindingPriceChiaK:         make(map[uint32]string),
 	}
@@ -1216,7 +1220,10 @@ func (s *APIServer) GetNetworkBinding(ctx context.Context, in *pb.GetNetworkBind
 		if err != nil {
 			return nil, status.New(ErrAPIQueryDataFailed, err.Error()).Err()
 		}
-		resp.BindingPriceMassBitlength[uint32(bl)] = required.String()
+		resp.BindingPriceMassBitlength[uint32(bl)], err = formatAmountWithUnit(required)
+		if err != nil {
+			return nil, err
+		}
 	}
 
 	// chia
@@ -1226,7 +1233,10 @@ func (s *APIServer) GetNetworkBinding(ctx context.Context, in *pb.GetNetworkBind
 			if err != nil {
 				return nil, status.New(ErrAPIQueryDataFailed, err.Error()).Err()
 			}
-			resp.BindingPriceChiaK[uint32(bl)] = required.String()
+			resp.BindingPriceChiaK[uint32(bl)], err = formatAmountWithUnit(required)
+			if err != nil {
+				return nil, err
+			}
 		}
 	}
 
@@ -1302,7 +1312,10 @@ func (s *APIServer) CheckTargetBinding(ctx context.Context, in *pb.CheckTargetBi
 			info.TargetSize = uint32(target.ScriptAddress()[21])
 		}
 
-		info.Amount = amount.String()
+		info.Amount, err = formatAmountWithUnit(amount)
+		if err != nil {
+			return nil, err
+		}
 	}
 	return &pb.CheckTargetBindingResponse{Result: infos}, nil
 }
